@@ -79,6 +79,41 @@ def removedOK (t : T) (S : List String) (u : T) : Bool :=
   keep.all (fun a => keep.all fun b => a == b || u.dist a b == t.dist a b) &&
   canonSet u.usplitSet == restrictSplits t.tipNames keep t.usplitSet
 
+/-- The unrooted split map of the tree restricted to the taxa `keep` (every branch with its length and
+    support; branches that restrict to the same split are fused: lengths added, larger support; branches
+    with nothing or everything of `keep` on one side disappear).  Same definition as `C06.restrictU`,
+    copied so that this Spec does not depend on another property's file. -/
+def restrictData (before : T) (keep : List String) : List USplit :=
+  let k := before.tipNames.filter keep.contains
+  let l := before.splits.foldl (fun acc s =>
+      let side := s.below.filter k.contains
+      if side.isEmpty || side.length == k.length then acc
+      else insertU ⟨canonSide k side, s.e.len, s.e.sup⟩ acc) []
+  l.mergeSort (fun a b => decide (toString a.side ≤ toString b.side))
+
+/-- the surviving branches keep their lengths and supports: the non-trivial splits of `u` with
+    (length, support) and its tip branch lengths are those of the restriction of `t` to the tips of `u` -/
+def survivorsDataOK (t u : T) : Bool :=
+  let k := t.tipNames.filter u.tipNames.contains
+  let exp := restrictData t u.tipNames
+  u.usplits == exp.filter (fun s => 2 ≤ lightSize k s.side) &&
+  u.tipLens == (exp.filter (fun s => lightSize k s.side ≤ 1)).map (fun s => (s.side, s.len))
+
+/-- Outgroup removed, any outgroup (in particular one that is NOT a side of a split, non-strict mode:
+    the code then removes every tip below the ancestor of the outgroup): the outgroup is absent; what
+    was removed is exactly one side of a split of the tree (one root clade) and contains the outgroup;
+    what is left is the restriction of the tree to the surviving tips — their distances, their splits,
+    the lengths and supports of the surviving branches. -/
+def removedAnyOK (t : T) (s : List String) (u : T) : Bool :=
+  let keep := u.tipNames
+  let gone := t.tipNames.filter (fun x => !keep.contains x)
+  keep.all (fun x => t.tipNames.contains x && !s.contains x) &&
+  !keep.isEmpty && s.all gone.contains &&
+  (t.usplitsAll.map (·.side)).contains (canonSide t.tipNames gone) &&
+  keep.all (fun a => keep.all fun b => a == b || u.dist a b == t.dist a b) &&
+  canonSet u.usplitSet == restrictSplits t.tipNames keep t.usplitSet &&
+  survivorsDataOK t u
+
 /-- largest tip-to-tip distance -/
 def diam (t : T) : Rat :=
   t.tipNames.foldl (fun m a => t.tipNames.foldl (fun m b => if a != b && t.dist a b > m then t.dist a b else m) m) 0
